@@ -17,7 +17,7 @@ MON_DATA = {
 PLACEMENT_KINDS = ["start", "start_minus", "inside", "twice", "burst", "boundary",
                    "sumboundary", "stop", "beyond", "lin"]
 FAULT_WHERE = ["first_step", "side", "after_side", "last_step", "jac", "monitor", "tick",
-               "linsolve", "stepend", "flush", "any_rhs", "step"]
+               "linsolve", "stepend", "flush", "any_rhs", "step", "alloc"]
 
 
 def wchoice(rng, pairs):
@@ -229,6 +229,8 @@ def gen_op(rng, prop, world, idx, mask, nres_ops):
         fref = {"res": [j, k]}
     else:
         fref = {"init": rng.randrange(len(world["fields"]))}
+    if kind != "step" and rng.random() < 0.12:
+        fref["copy"] = True
     op = {"op": kind, "s": s, "f": fref}
     if kind == "step":
         H = 0.0625
@@ -290,6 +292,13 @@ def generate(seed, prop, run):
     res_ops = []
     for i in range(nops):
         op = gen_op(rng, prop, world, i, mask, res_ops)
+        # callers commonly re-use one stop dictionary object for several calls
+        prev = [j for j, o in enumerate(ops) if o["op"] != "step" and o.get("stop") and "stop_share" not in o]
+        if op["op"] != "step" and prev and rng.random() < 0.3:
+            j = rng.choice(prev)
+            op["stop_share"] = j
+            op["stop"] = ops[j]["stop"]
+            op["stop_kind"] = ops[j]["stop_kind"]
         ops.append(op)
         res_ops.append(i)
     # C08: frequently make the history a repeat / split of the same solve
@@ -314,4 +323,5 @@ def generate(seed, prop, run):
             plan.append({"op": rng.randrange(nops), "where": rng.choice(fmask), "frac": fhex(rng.random()),
                          "exc": wchoice(rng, [("fault", 60), ("interrupt", 40)])})
     return {"v": 1, "prop": prop, "seed": seed, "run": run, "sub": subseed(seed, prop, run),
-            "world": world, "mask": sorted(mask), "ops": ops, "fault_plan": plan, "faults": []}
+            "world": world, "mask": sorted(mask), "ops": ops, "fault_plan": plan, "faults": [],
+            "alloc": any(p["where"] == "alloc" for p in plan)}
